@@ -75,7 +75,9 @@ def check_pgr(case):
     n = len(A)
     axis = case["axis"]
     row = AXES.index(axis)
+    A_before = A.copy()
     P, G, R = sut(D.symmetry_pgr, A, axis=axis)
+    require(np.array_equal(A, A_before), "symmetry_pgr modified the orientation array")
     for name, v in (("P", P), ("G", G), ("R", R)):
         require(np.isfinite(v) and -1e-12 <= v <= 1 + 1e-12, f"{name} = {v!r} outside [0,1]")
     require(abs(P + G + R - 1) <= 1e-12, f"P+G+R = {P + G + R!r} != 1")
@@ -172,7 +174,9 @@ def check_finite_strain(case):
     if sv[-1] <= 1e-6 * sv[0]:
         raise Skip("F not invertible / condition number > 1e6")
     Q = gen.rot(case["Q"])
+    F_before = F.copy()
     s, ax = sut(D.finite_strain, F)
+    require(np.array_equal(F, F_before), "finite_strain modified the deformation gradient")
     U, S, _ = np.linalg.svd(F)
     e0 = abs(s - (S[0] - 1)) / S[0]
     require(np.isfinite(s) and e0 <= 1e-9, f"finite strain {s!r} != largest principal stretch - 1 = {S[0] - 1!r}", e0)
